@@ -804,6 +804,84 @@ def missing_cases(ctx):
                            py_fail=py_fail, tags=tags, nontrivial=(r[0] != 'X'), key=f'N|{kinds}|{wname}|{ls}|{name}')
 
 
+# ---- isin against containers that are duplicate-free by construction (set, frozenset, dict, keys view, range)
+def isin_table(kind, n, m):
+    """n x m table with three values (one inside the `other` containers, two outside), each repeated across the
+    columns of a row block and -- for n >= 4 -- within a column."""
+    if kind == 'g':
+        pool = [7.0, 25.0, 2.5]
+        mk = lambda vals: np.array(vals, dtype=np.float64)
+    elif kind == 'U':
+        pool = ['k7', 'zz', 'q!']
+        mk = lambda vals: np.array(vals, dtype='<U2')
+    else:
+        d0 = np.datetime64('2020-01-01')
+        pool = [d0 + 7, d0 + 100, d0 + 200]
+        mk = lambda vals: np.array(vals, dtype='datetime64[D]')
+    cols = []
+    for j in range(m):
+        a = mk([pool[(i + j) % 3] for i in range(n)])
+        a.flags.writeable = False
+        cols.append(a)
+    return cols
+
+
+def isin_others(kind):
+    """(name, container, membership set): 15-40 elements; unique-by-construction containers and, as controls, a list with repeats and an array."""
+    if kind == 'g':
+        base = [float(x) for x in range(20)]
+        out = [('range(20)', range(20)), ('range(15)', range(15)), ('range(40)', range(40)), ('set-floats', set(base)),
+               ('frozenset-floats', frozenset(base)), ('dict', dict.fromkeys(base)), ('dict-keys', dict.fromkeys(base).keys()),
+               ('set-30', set(base + [x + 0.25 for x in range(10)])), ('list-repeats', base + base[:5]), ('array', np.array(base))]
+    elif kind == 'U':
+        base = ['k%d' % x for x in range(20)]
+        out = [('set', set(base)), ('frozenset', frozenset(base)), ('dict', dict.fromkeys(base)), ('dict-keys', dict.fromkeys(base).keys()),
+               ('set-35', set(base + ['j%d' % x for x in range(15)])), ('list-repeats', base + base[:5]), ('array', np.array(base))]
+    else:
+        d0 = np.datetime64('2020-01-01')
+        base = [d0 + x for x in range(20)]
+        out = [('set', set(base)), ('frozenset', frozenset(base)), ('dict', dict.fromkeys(base)), ('dict-keys', dict.fromkeys(base).keys()),
+               ('list-repeats', base + base[:5]), ('array', np.array(base))]
+    return out
+
+
+def isin_cases(ctx):
+    """Frame.isin(other) on every layout: per-cell membership (the specification, computed cell by cell in Python) and layout vs canonical."""
+    import static_frame as sf
+    specs = [('g', 4, 2), ('g', 3, 3), ('U', 4, 2), ('U', 4, 3), ('M', 4, 2), ('M', 3, 3)]
+    if ctx.tier != 'quick':
+        specs += [('g', 4, 4), ('g', 2, 4), ('U', 3, 4), ('M', 4, 4), ('g', 5, 3)]
+    for kind, n, m in specs:
+        cols = isin_table(kind, n, m)
+        canon = canonical_layout(m)
+        mk = lambda lay: zoo.frame_from_columns(cols, lay, index=ROW_LABELS[:n], columns=COL_LABELS[:m], name='fr')
+        for oname, other in isin_others(kind):
+            members = set(other)
+            want = tuple(tuple(bool(c[i] in members) for i in range(n)) for c in cols)
+            ref = observe(lambda f: f.isin(other), mk(canon))
+            for lay in zoo.layouts_for([c.dtype for c in cols]):
+                ls = zoo.layout_str(lay)
+                ctx.count('isin', 'isin:' + type(other).__name__)
+                f = mk(lay)
+                problems = []
+                try:
+                    r = f.isin(other)
+                    got = tuple(tuple(bool(x) for x in r._blocks._extract_array(None, j)) for j in range(m))
+                    if got != want or any(r._blocks._extract_array(None, j).dtype != bool for j in range(m)):
+                        problems.append(f'isin({oname}) on layout {ls} marks {got}; cell-by-cell membership is {want}')
+                    o = _obs(r)
+                except Exception as e:  # noqa
+                    o = ('X', lit.err_class(e))
+                    problems.append(f'isin({oname}) on layout {ls} raised {lit.err_class(e)}')
+                if o != ref:
+                    problems.append(f'isin({oname}) on layout {ls} differs from the all-1-D layout')
+                yield Case('api:isin-unique-other',
+                           {'kind': kind, 'rows': n, 'columns': m, 'layout': ls, 'other': oname,
+                            'replay': f"from sfv.props.c03 import isin_table, isin_others; from sfv import zoo; cols = isin_table({kind!r},{n},{m}); f = zoo.frame_from_columns(cols, {lay!r}); f.isin(dict(isin_others({kind!r}))[{oname!r}])"},
+                           py_fail='; '.join(problems[:2]) or None, tags={'stratum': 'isin', 'other': type(other).__name__},
+                           nontrivial=True, key=f'I|{kind}|{n}|{m}|{ls}|{oname}')
+
+
 # ---- operations that take ANOTHER Frame: the argument's layout varies independently of the receiver's
 def bound_columns(kinds, n, row):
     """Per-column constant bounds (the column's own value at `row`), DISTINCT between neighbouring columns, same dtypes."""
@@ -1330,4 +1408,5 @@ def cases(ctx):
                     yield from append_cases(ctx, kinds, n)
                 yield from history_cases(ctx, kinds, n)
             yield from missing_cases(ctx)
+            yield from isin_cases(ctx)
             yield from malformed_cases(ctx)
